@@ -1,6 +1,7 @@
 //! End-to-end (L2/L3) machinery: real nodes on loopback, scripted applications and targets with
 //! positional-stream / unique-id oracles, descriptor and task accounting, fault injection.
 pub mod c01;
+pub mod c02;
 pub mod c15;
 pub mod chopper;
 pub mod endpoints;
